@@ -70,6 +70,20 @@ func sel(n int) int {
 	return t
 }
 
+// a breakpoint reached after the function has executed many statements
+// (the executor is then in its second, unrolled loop)
+func longLoop(n int) int {
+	s := 0
+	for i := 0; i < n; i++ {
+		s += i
+		if i == 37 {
+			_ = "break"
+		}
+	}
+	s += leaf(n)
+	return s
+}
+
 func withRecover(x int) (r int) {
 	defer func() {
 		if e := recover(); e != nil {
@@ -85,7 +99,9 @@ func withRecover(x int) (r int) {
 func Main() {
 	n := 1 + hook.Choose(3)
 	for i := 0; i < n; i++ {
-		switch hook.Choose(6) {
+		switch hook.Choose(7) {
+		case 6:
+			hook.Ev("long", longLoop(38+hook.Choose(20)))
 		case 0:
 			hook.Ev("loop", loop(1+hook.Choose(3)))
 		case 1:
